@@ -264,13 +264,14 @@ class Histories(SubCheck):
         A = af.IDENT
         libA = svg.Matrix()
         nontriv = False
+        mobj = {}       # one Matrix object per name for the whole history: the caller's matrices are re-used, never consumed
         for step, ev in enumerate(case["history"]):
             op, _, mname = ev.partition(":")
             tags = dict(obj=oname, mag=mag, event=ev, step=step, history=case["history"], own=list(own))
             try:
                 if op in ("mul", "imul", "muls", "imuls"):
                     M = MATS[mname]
-                    lm = svg.Matrix(*M)
+                    lm = mobj.setdefault(mname, svg.Matrix(*M))
                     arg = lm
                     if op.endswith("s"):
                         # the right operand as transform text
@@ -291,7 +292,7 @@ class Histories(SubCheck):
                 elif op in ("matmul", "imatmul"):
                     # X @ M / X @= M: multiply and reify in one step (objects that carry a transform only)
                     M = MATS[mname]
-                    lm = svg.Matrix(*M)
+                    lm = mobj.setdefault(mname, svg.Matrix(*M))
                     if op == "matmul":
                         x = x @ lm
                     else:
@@ -307,6 +308,12 @@ class Histories(SubCheck):
                 elif op == "topath":
                     x = svg.Path(x)
                 obs = observe(svg, x)
+                for nm, mo in list(mobj.items()):
+                    got = (float(mo.a), float(mo.b), float(mo.c), float(mo.d), float(mo.e), float(mo.f))
+                    if got != tuple(float(v) for v in MATS[nm]):
+                        out.fail("after %r the caller's Matrix object %s has changed (an operand was kept and mutated)" % (
+                            case["history"][:step + 1], nm), list(MATS[nm]), list(got), kind="matrix-operand", **tags)
+                        mobj[nm] = svg.Matrix(*MATS[nm])
             except Exception as e:  # noqa
                 out.fail("history %r on %s raised %s" % (case["history"][:step + 1], oname, type(e).__name__), None,
                          repr(e), kind="exception", exc=type(e).__name__, **tags)
